@@ -292,9 +292,11 @@ class MultitaskGaussianLikelihood(_MultitaskGaussianLikelihoodBase):
 
     def _eval_covar_matrix(self) -> Tensor:
         covar_factor = self.task_noise_covar_factor
-        noise = self.noise
-        D = noise * torch.eye(self.num_tasks, dtype=noise.dtype, device=noise.device)  # pyre-fixme[16]
-        return covar_factor.matmul(covar_factor.transpose(-1, -2)) + D
+        res = covar_factor.matmul(covar_factor.transpose(-1, -2))
+        if self.has_global_noise:
+            noise = self.noise  # *batch_shape x 1
+            res = res + noise.unsqueeze(-1) * torch.eye(self.num_tasks, dtype=noise.dtype, device=noise.device)
+        return res
 
     def marginal(
         self, function_dist: MultitaskMultivariateNormal, *args: Any, **kwargs: Any
